@@ -236,14 +236,16 @@ def r3_input_table(ctx):
     if fn is None:
         r.missing("InputType::get_key")
     else:
-        m = find_first(fn.body, "Match")
-        got = {show_pat(a["pat"]).split("::")[-1]: [flat(tok_text(q["tokens"])) for q in xquotes(a["body"])] for a in m["arms"]}
-        want = {"Context": ["leptos_i18n::I18nContext::get_keys(#input).#keys()"], "Untracked": ["leptos_i18n::I18nContext::get_keys_untracked(#input).#keys()"], "Locale": ["leptos_i18n::Locale::get_keys(#input).#keys()"]}
+        # evaluated (rules/absint.py): the token text get_key produces for each input selector
+        from rules.absint import AEval, C as _C, TOK as _TOK
+        want = {"Context": "leptos_i18n::I18nContext::get_keys(INPUT).KEYS()", "Untracked": "leptos_i18n::I18nContext::get_keys_untracked(INPUT).KEYS()", "Locale": "leptos_i18n::Locale::get_keys(INPUT).KEYS()"}
         for k, w in want.items():
-            if got.get(k) == w:
-                r.inst("InputType::%s" % k, w[0])
+            v = AEval(funcs={}).run_fn(fn, [_C(k), _TOK("INPUT"), _TOK("KEYS")])
+            got = flat(v[1]) if not isinstance(v, str) and v[0] == "tok" else str(v)
+            if got == w:
+                r.inst("InputType::%s" % k, w)
             else:
-                r.viol("R3:get_key#" + k, "is %s" % got.get(k), file=fn.file, line=fn.line)
+                r.viol("R3:get_key#" + k, "is %s" % got, file=fn.file, line=fn.line)
     fn = ast.fn("leptos_i18n_macro/src/utils/mod.rs", "to_tokens", impl_self="Keys")
     t = flatp(show(fn.body)) if fn else ""
     if has(t, "Keys::SingleKeykey=>tokens.appendkey.clone") and has(t, "Keys::Subkeyskeys=>tokens.append_separatedkeys,quote!."):
